@@ -26,6 +26,28 @@ CHECKS = {
              "canonically and compared byte for byte; every selected union branch is checked with an independent "
              "conformance predicate.",
         ref="DESIGN.md §4 C02"),
+    "C03": dict(
+        cat="exploration", tech="runtime monitoring: independent layout encoder + enumerated faults (bad indices, every proper prefix)",
+        text="Value trees are re-encoded by an independent encoder under random block partitions in positive and "
+             "negative-count form and fed to the real schemaless_reader directly and through a reader schema that drops "
+             "the field (skip path, bare and nested under array/map/union). Per case every union/enum index position is "
+             "overwritten with 7 out-of-range values and every proper prefix (<=400 bytes) is tried; the oracle is 'same "
+             "value as the independent decoder' resp. 'an exception is raised'. Sampled schemas/values, enumerated faults per case.",
+        ref="DESIGN.md §4 C03"),
+    "C04": dict(
+        cat="exploration", tech="runtime monitoring: stream monitors (read-only / write-only wrappers) + reference-model oracle over configurations",
+        text="Real writer()/reader() over generated schemas x record lists x codec x sync_interval x level x metadata x "
+             "marker x raw/parsed x stream kinds; wrapper streams log every call and trap every foreign attribute; records, "
+             "canonical schema, codec and metadata read back are compared with the model; grouping-independence is checked "
+             "across sync_interval values of the same case.",
+        ref="DESIGN.md §4 C04"),
+    "C05": dict(
+        cat="exploration", tech="runtime monitoring: differential check against an independent container parser/writer; tiling arithmetic on block_reader output",
+        text="Both directions: fastavro-written files are parsed by an independent container parser (layout grammar, "
+             "codec through stdlib, exact record counts) and independently written layout-valid files (empty blocks, "
+             "chunked header map, absent codec key) are read by reader and block_reader whose blocks must tile the file; the "
+             "Java fixtures are read by both sides; is_avro is compared with the magic predicate on byte strings and paths.",
+        ref="DESIGN.md §4 C05"),
 }
 
 NOT_YET = "check not built yet in this session (see DESIGN.md §8 build order)"
